@@ -3,8 +3,8 @@ import ast
 import struct
 
 from .. import bits as B_
-from ..astutil import dotted, method_call
-from ..cfg import cfg_of, fact_key, norm, walk_own
+from ..astutil import dotted, effective, method_call
+from ..cfg import canon_test, cfg_of, fact_key, norm, walk_own
 from ..consteval import Scope, class_const, fold_in
 from ..mutate import B, M
 
@@ -87,7 +87,7 @@ def check(ctx):
     got = [norm(e) for e in dst[0].targets[0].elts] if dst and isinstance(dst[0].targets[0], (ast.List, ast.Tuple)) else []
     ctx.inst('R1', rd, 'reader-v0-order', got == ["self.elements['version']"] + names, 'reader destinations %s must mirror the writer order' % got)
     tk = gr.find(lambda n: isinstance(n, ast.Compare) and 'EEPROM_TOKEN' in norm(n))
-    ctx.inst('R1', rd, 'reader-token', len(tk) == 1 and norm(tk[0][1]) == '%s[0:%d] == EEPROM_TOKEN' % (rd.params[3], len(tok)), 'token compared on data[0:%d]' % len(tok))
+    ctx.inst('R1', rd, 'reader-token', len(tk) == 1 and canon_test(tk[0][1]) == fact_key('%s[0:%d] == EEPROM_TOKEN' % (rd.params[3], len(tok)))[0], 'token compared on data[0:%d]' % len(tok))
     u1 = [c for c in ups if fold_in(rd, c.args[0]) == '<BI']
     ok = len(u1) == 1 and norm(u1[0].args[1]) == 'self.datav0[15:16] + %s[0:4]' % rd.params[3]
     ctx.inst('R1', rd, 'reader-v1-address-bytes', ok, 'address = byte 15 of the first read + 4 bytes of the second read')
@@ -189,7 +189,7 @@ def check(ctx):
     G = m.cls(LH, 'LighthouseBsGeometry')
     C = m.cls(LH, 'LighthouseBsCalibration')
     gw = G.method('add_mem_data')
-    seq = [norm(s.value) if isinstance(s, ast.Expr) else norm(s) for s in gw.node.body if not (isinstance(s, ast.Expr) and isinstance(s.value, ast.Constant))]
+    seq = [norm(s.value) if isinstance(s, ast.Expr) else norm(s) for s in effective(gw.node.body)]
     dv = gw.params[1]
     ctx.inst('R5', gw, 'geo-writer-order', seq == ['self._add_vector(%s, self.origin)' % dv, 'self._add_vector(%s, self.rotation_matrix[0])' % dv, 'self._add_vector(%s, self.rotation_matrix[1])' % dv,
                                                   'self._add_vector(%s, self.rotation_matrix[2])' % dv, "%s += struct.pack('<?', self.valid)" % dv], 'geometry image = origin, rotation rows 0..2, valid; found %s' % seq)
@@ -228,7 +228,7 @@ def check(ctx):
     got = [norm(e) for e in dd[0].targets[0].elts] if dd else []
     ctx.inst('R5', us, 'sweep-reader', len(uu) == 1 and fold_in(us, uu[0].args[0]) == '<fffffff' and got == ['result.%s' % x for x in sweep], 'sweep read into %s' % got)
     cw = C.method('add_mem_data')
-    seq = [norm(s.value) if isinstance(s, ast.Expr) else norm(s) for s in cw.node.body if not (isinstance(s, ast.Expr) and isinstance(s.value, ast.Constant))]
+    seq = [norm(s.value) if isinstance(s, ast.Expr) else norm(s) for s in effective(cw.node.body)]
     dv = cw.params[1]
     ctx.inst('R5', cw, 'calib-writer-order', seq == ['self._pack_sweep_calib(%s, self.sweeps[0])' % dv, 'self._pack_sweep_calib(%s, self.sweeps[1])' % dv, "%s += struct.pack('<L?', self.uid, self.valid)" % dv],
              'calibration image = sweep 0, sweep 1, uid, valid; found %s' % seq)
@@ -336,7 +336,7 @@ def check(ctx):
         f = D.method(pn)
         rs = [norm(s.value) for s in walk_own(f.node) if isinstance(s, ast.Return)]
         bf = '_bit_field2' if 'RESET' in mk else '_bit_field1'
-        okp = okp and rs == ['self.%s & self.%s != 0' % (bf, mk)]
+        okp = okp and len(rs) == 1 and canon_test(ast.parse(rs[0], mode='eval').body) == canon_test(ast.parse('self.%s & self.%s != 0' % (bf, mk), mode='eval').body)
     ctx.inst('R7', (DK, 'DeckMemory'), 'mask-properties', okp, 'each property tests its own mask on its own bit field')
     pi = Mg.method('_parse_info_section')
     st = {norm(s.targets[0]): norm(s.value) for s in walk_own(pi.node) if isinstance(s, ast.Assign)}
